@@ -128,7 +128,8 @@ theorem OFO.childAddSpec_track (m : OFO) (kids : List (Nat × Nat)) (h : OFO.TIn
   · have : m.childAddSpec name sig = (m, .err .strategyActive) := by simp [OFO.childAddSpec, hm]
     rw [this]; exact ⟨h, trivial, rfl⟩
   unfold OFO.childAddSpec
-  simp only [hm, ne_eq, not_true_eq_false, if_false]
+  have hcond : ¬ (m.mode ≠ 0 ∨ m.shutdown = true) := by simp [hm, hsd]
+  rw [if_neg hcond]
   split
   · exact ⟨h, trivial, rfl⟩
   · rename_i hvalid
@@ -211,6 +212,8 @@ theorem OFO.childEnable_track (m : OFO) (kids : List (Nat × Nat)) (h : OFO.TInv
     OFO.TInv (m.childEnable name).1 kids ∧ OFO.TRes (m.childEnable name).1 kids (m.childEnable name).2 ∧
     (m.childEnable name).1.shutdown = m.shutdown := by
   unfold OFO.childEnable
+  have hns : ¬ (m.shutdown = true) := by simp [hsd]
+  rw [if_neg hns]
   cases hf : findName name m.spec with
   | none => exact ⟨h, trivial, rfl⟩
   | some c =>
@@ -373,12 +376,21 @@ structure OFO.Track (c : Loop OFO) : Prop where
   glue : Glue c
   core : OFO.TrackCore c
 
-/-- the D26 / D27 exclusions, as a decidable condition on (configuration, label) -/
+/-- the D26 exclusion, as a decidable condition on (configuration, label): no EnableChild for a spec that still has an
+entry in the children table (while the supervisor is shutting down the call is refused and changes nothing).
+StartChild / AddChild / EnableChild while shutting down (the former D27 region) are ordinary steps: they are refused. -/
 def ofoSafe (c : Loop OFO) : Label → Bool
-  | .enable name _ => !c.m.shutdown && !(c.kids.any (fun k => k.2 == name))
-  | .startChild _ _ _ => !c.m.shutdown
-  | .addChild _ _ _ => !c.m.shutdown
+  | .enable name _ => c.m.shutdown || !(c.kids.any (fun k => k.2 == name))
   | _ => true
+
+/-- while the supervisor is stopping its children the three calls are refused and change nothing -/
+theorem OFO.childSpec_shut (m : OFO) (name : Nat) (h : m.shutdown = true) : m.childSpec name = (m, .err .strategyActive) := by
+  simp [OFO.childSpec, h]
+theorem OFO.childAddSpec_shut (m : OFO) (name : Nat) (sig : Bool) (h : m.shutdown = true) :
+    m.childAddSpec name sig = (m, .err .strategyActive) := by
+  simp [OFO.childAddSpec, h]
+theorem OFO.childEnable_shut (m : OFO) (name : Nat) (h : m.shutdown = true) : m.childEnable name = (m, .err .strategyActive) := by
+  simp [OFO.childEnable, h]
 
 def ofoStepSafe (c : Loop OFO) (l : Label) : Option (Loop OFO) := if ofoSafe c l then ofoStep c l else none
 
@@ -504,7 +516,13 @@ theorem OFO.step_track (c c' : Loop OFO) (l : Label) (h : OFO.Track c) (hs : ofo
     rename_i hst
     simp only [Option.some.injEq] at hs; subst hs
     have hst' : c.status = .running := by simpa using hst
-    have hsd : c.m.shutdown = false := by simpa [ofoSafe] using hsafe
+    cases hsd : c.m.shutdown with
+    | true =>
+      have hr : ofoMachine.childSpec c.m name = (c.m, .err .strategyActive) := OFO.childSpec_shut c.m name hsd
+      rw [hr]
+      exact OFO.afterCall_track _ true bits c (c.m, .err .strategyActive) h.glue hst' h.core.fresh.2 h.core.wf h.core.tinv
+        (h.core.live hst') (by show c.m.spec.length + 2 ≤ _; omega)
+    | false =>
     have hg := OFO.childSpec_good c.m name args h.core.wf
     have ht := OFO.childSpec_track c.m c.kids h.core.tinv h.core.wf hsd name args
     simp only at hg ht
@@ -516,7 +534,13 @@ theorem OFO.step_track (c c' : Loop OFO) (l : Label) (h : OFO.Track c) (hs : ofo
     rename_i hst
     simp only [Option.some.injEq] at hs; subst hs
     have hst' : c.status = .running := by simpa using hst
-    have hsd : c.m.shutdown = false := by simpa [ofoSafe] using hsafe
+    cases hsd : c.m.shutdown with
+    | true =>
+      have hr : ofoMachine.childAddSpec c.m name sig = (c.m, .err .strategyActive) := OFO.childAddSpec_shut c.m name sig hsd
+      rw [hr]
+      exact OFO.afterCall_track _ true bits c (c.m, .err .strategyActive) h.glue hst' h.core.fresh.2 h.core.wf h.core.tinv
+        (h.core.live hst') (by show c.m.spec.length + 2 ≤ _; omega)
+    | false =>
     have hg := OFO.childAddSpec_good c.m name sig h.core.wf
     have ht := OFO.childAddSpec_track c.m c.kids h.core.tinv h.core.wf hsd name sig
     exact OFO.afterCall_track _ true bits c _ h.glue hst' h.core.fresh.2 hg.1 ht.1
@@ -527,9 +551,16 @@ theorem OFO.step_track (c c' : Loop OFO) (l : Label) (h : OFO.Track c) (hs : ofo
     rename_i hst
     simp only [Option.some.injEq] at hs; subst hs
     have hst' : c.status = .running := by simpa using hst
+    cases hsd : c.m.shutdown with
+    | true =>
+      have hr : ofoMachine.childEnable c.m name = (c.m, .err .strategyActive) := OFO.childEnable_shut c.m name hsd
+      rw [hr]
+      exact OFO.afterCall_track _ true bits c (c.m, .err .strategyActive) h.glue hst' h.core.fresh.2 h.core.wf h.core.tinv
+        (h.core.live hst') (by show c.m.spec.length + 2 ≤ _; omega)
+    | false =>
     have hsafe' : c.m.shutdown = false ∧ ∀ p, (p, name) ∉ c.kids := by
-      simp only [ofoSafe, Bool.and_eq_true, Bool.not_eq_true', List.any_eq_false, beq_iff_eq] at hsafe
-      exact ⟨hsafe.1, fun p hp => hsafe.2 (p, name) hp rfl⟩
+      simp only [ofoSafe, hsd, Bool.false_or, Bool.not_eq_true', List.any_eq_false, beq_iff_eq] at hsafe
+      exact ⟨hsd, fun p hp => hsafe (p, name) hp rfl⟩
     have hg := OFO.childEnable_good c.m name h.core.wf
     have ht := OFO.childEnable_track c.m c.kids h.core.tinv h.core.wf hsafe'.1 name hsafe'.2
     exact OFO.afterCall_track _ true bits c _ h.glue hst' h.core.fresh.2 hg.1 ht.1
